@@ -56,7 +56,7 @@ def handle (line : String) : String :=
       | none => "bad-op"
   | ["san"] => "san " ++ ",".intercalate ((sanL []).map toString)
   | ["diag"] =>
-      ";".intercalate (C.fns.map fun t => t.cls ++ "/" ++ toString t.arity ++ "|" ++ primDiag 0 t)
+      ";".intercalate (C.fns.map fun t => t.cls ++ "/" ++ toString t.arity ++ "|" ++ primDiag 1 t)
         ++ ";not/1|" ++ primDiag 3 C.notT
         ++ ";" ++ ";".intercalate (allOps.map fun k => "op" ++ xopName k ++ "|" ++
               (if C.opT k = [.hole 0, .op (P.img k), .hole 1] then "ok" else "differs:" ++ wordsOfToks (C.opT k)))
